@@ -12,8 +12,10 @@ LEVEL = "proof"
 META = {
     "text": "(1) OPTION CONSTRAINTS vs CONSUMER (contradiction rule): no command creates (mkdir) a path that its own option declares "
             "with exists=True - such a command can only fail on a fresh destination; resolved through the option helper "
-            "(cli.library.destination). (2) `runcards example` writes both cards through the normalised raw form (.raw -> "
-            "cards.dump, a safe dumper; totality of the normaliser is C40) into the destination it was given, after creating it. "
+            "(cli.library.destination); a parameter the command uses as a directory (mkdir, `/ name`) must be allowed to be one "
+            "(not dir_okay=False) and must be creatable when present and when nested (exist_ok, parents). (2) `runcards example` is "
+            "evaluated on a model file system for an absent, a present and a nested destination: exactly the normalised (.raw) "
+            "theory and operator cards are written into it as plain YAML (totality of the normaliser is C40). "
             "(3) ARGUMENT FORMS: `run` is partially evaluated for 0..4 path arguments with symbolic paths and a recording solver: "
             "one argument -> <dir>/theory.yaml, <dir>/operator.yaml, output <dir>/eko.tar; two -> the given cards, output next "
             "to the operator card; three -> the given cards and output; otherwise a usage error. The solver called is the "
@@ -22,7 +24,7 @@ META = {
             "command writes or computes.",
     "note": "That the files written load back to equal cards is C40's normaliser/reader agreement; equality of operators follows "
             "from calling the same solver on the same cards.",
-    "technique": "contradiction rule on click declarations + partial evaluation of the command over the finite argument forms with symbolic paths",
+    "technique": "option/consumer contradiction rules on click declarations + partial evaluation of the commands (argument forms with symbolic paths; example command on a model file system)",
     "engine": "sa",
 }
 
